@@ -395,7 +395,13 @@ func (m *machine) registerIntrinsics() {
 
 	// ---- time
 	in["time.After"] = func(fr *frame, fn *ssa.Function, args []value) value {
-		return fr.i.newChan(1) // never fires: timeouts are not part of any modelled fault plan
+		// virtual time: the timer fires only when no thread can run and nobody waits
+		// for quiescence (see scheduleNext); time never advances while work is pending
+		i := fr.i
+		c := i.newChan(1)
+		d := asInt64(args[0])
+		i.timers = append(i.timers, &timer{at: i.now + d, ch: c, tt: fn.Signature.Results().At(0).Type()})
+		return c
 	}
 	in["time.Now"] = noop
 	in["time.Since"] = noop
